@@ -380,3 +380,38 @@ Proof.
   - intros d l Hl. unfold corr_products, cp_idx in *. apply nth_select; [|assumption].
     unfold nB, Select.dimlen, zlen in Lb. lia.
 Qed.
+
+(* ------------------------------------------------------------------ link with C05 / C04 *)
+
+(* For the formats with ONE underlying dataset (v2, v3, v4) the first stage of the model is literally
+   dataset[time mask, freq mask, corrprod mask] under outer indexing, i.e. the first stage of C05's spec_getitem /
+   C04's spec (LazyIndexer(dataset, keep=stage1), DaskLazyIndexer(dataset, stage1)); index = that, then [ix2]. *)
+Lemma pad_to_same : forall (l : list aidx), pad_to (List.length l) l = l.
+Proof. induction l as [|a r IH]; [reflexivity|]. cbn. now rewrite IH. Qed.
+
+Lemma keep_sels_masks : forall dims masks, List.length dims = List.length masks ->
+  keep_sels dims (map AMask masks) = if all2 fits dims masks then Ok (map mask_sel masks) else Err.
+Proof.
+  intros dims masks L. unfold keep_sels. rewrite L, <- (map_length AMask masks), pad_to_same.
+  revert masks L. induction dims as [|d r IH]; intros [|m ms] L; try discriminate; [reflexivity|].
+  injection L as L. cbn [map combine mapM fst snd all2]. unfold resolve_keep at 1, resolve, fits at 1.
+  destruct (zlen m =? d); [|reflexivity]. cbn [bind fst andb]. rewrite (IH ms L).
+  destruct (all2 fits r ms); reflexivity.
+Qed.
+
+Lemma single_part_is_outer_indexing S x n m : ix_rows x = [n] -> ix_tmasks x = [m] ->
+  List.length (ix_dims x) = List.length (ix_tail x) ->
+  stage1 S x = oindex_keep (mk_nd (n :: ix_dims x) S) (map AMask (m :: ix_tail x)).
+Proof.
+  intros Hr Hm L. unfold oindex_keep. cbn [nd_shape nd_body].
+  rewrite keep_sels_masks by (cbn; now rewrite L).
+  destruct (stage1 S x) as [a1|] eqn:E.
+  - destruct (stage1_take S x a1 E) as [F1 [F2 ->]]. rewrite Hr, Hm in F1. cbn [all2] in F1 |- *.
+    rewrite andb_true_r in F1. rewrite F1, F2. cbn [andb bind]. rewrite Hm. cbn [List.concat]. rewrite app_nil_r.
+    f_equal. f_equal. unfold tail_sels. cbn [map]. rewrite take_shape_keep.
+    + reflexivity.
+    + constructor; [reflexivity|]. apply Forall_forall. intros s0 Hs. apply in_map_iff in Hs.
+      destruct Hs as [mm [<- _]]. reflexivity.
+  - unfold stage1 in E. rewrite Hr, Hm in E. cbn [all2] in E |- *. rewrite andb_true_r in E.
+    destruct (fits n m && all2 fits (ix_dims x) (ix_tail x)); [discriminate|reflexivity].
+Qed.
